@@ -1,6 +1,7 @@
 // Footprint probe (C11): which nodes of which shared array does ONE kernel call of a parallel region write / read?
 //   ./h_foot <shapes>
-// For every kernel of the six vector-kernel classes (ResidualGive/Take, SmootherGive/Take, ExtrapolatedSmootherGive/Take),
+// For every kernel of the twelve region classes (residual, smoother, extrapolated smoother; the two direct-solver and four
+// smoother-matrix assemblies: there the shared array is the set of matrix rows),
 // every line argument and colour that the regions can pass, the real member function is called on random arrays;
 //   written(a,p)  iff the call changes a[p] for one of two random backgrounds,
 //   read(a,p)     iff perturbing a[p] alone changes some OTHER cell of the output (a cell that is updated in place is
@@ -46,6 +47,8 @@
 #include "Smoother/SmootherTake/smootherTake.h"
 #include "ExtrapolatedSmoother/ExtrapolatedSmootherGive/extrapolatedSmootherGive.h"
 #include "ExtrapolatedSmoother/ExtrapolatedSmootherTake/extrapolatedSmootherTake.h"
+#include "DirectSolver/DirectSolverGiveCustomLU/directSolverGiveCustomLU.h"
+#include "DirectSolver/DirectSolverTakeCustomLU/directSolverTakeCustomLU.h"
 #undef private
 #undef protected
 
@@ -104,6 +107,65 @@ static void probe(Rng& rng, const PolarGrid& g, const char* cls, const char* fn,
         return s.empty() ? std::string("-") : s;
     };
     printf("FP cls=%s fn=%s arg=%d col=%s W=%s R=%s\n", cls, fn, arg, colour, dump(W).c_str(), dump(R).c_str());
+}
+
+// ---- matrix-assembly kernels: the shared "array" is the set of matrix rows; a row belongs to the node it is the equation of
+struct Cell { int r, th; double* p; };
+static void probe_cells(Rng& rng, const PolarGrid& g, const char* cls, const char* fn, int arg, std::vector<Cell>& cells, const std::function<void()>& K)
+{
+    std::set<int> W;
+    std::vector<double> before(cells.size());
+    for (int rep = 0; rep < 2; rep++) {
+        for (size_t c = 0; c < cells.size(); c++) before[c] = *cells[c].p = rng.uniform(1.0, 2.0) * (rng.coin() ? 1 : -1);
+        K();
+        for (size_t c = 0; c < cells.size(); c++)
+            if (!same(*cells[c].p, before[c])) W.insert(cells[c].r * g.ntheta() + cells[c].th);
+    }
+    std::string s;
+    for (int p : W) { if (!s.empty()) s += ','; s += std::to_string(p); }
+    printf("FP cls=%s fn=%s arg=%d col=none W=%s R=-\n", cls, fn, arg, s.empty() ? "-" : ("out:" + s).c_str());
+}
+static void csr_cells(const PolarGrid& g, SparseMatrixCSR<double>& A, bool global, std::vector<Cell>& out)
+{
+    for (int row = 0; row < A.rows(); row++) {
+        int i = 0, j = row;
+        if (global) g.multiIndex(row, i, j);
+        for (int k = 0; k < A.row_nz_size(row); k++) out.push_back({i, j, &A.row_nz_entry(row, k)});
+    }
+}
+static void tri_cells(SymmetricTridiagonalSolver<double>& T, bool circle, int line, int nc, std::vector<Cell>& out)
+{
+    auto node = [&](int k) { return circle ? std::pair<int, int>(line, k) : std::pair<int, int>(nc + k, line); };
+    for (int k = 0; k < T.rows(); k++) { auto [r, t] = node(k); out.push_back({r, t, &T.main_diagonal(k)}); }
+    for (int k = 0; k + 1 < T.rows(); k++) { auto [r, t] = node(k); out.push_back({r, t, &T.sub_diagonal(k)}); }
+    if (T.rows() > 0 && T.is_cyclic()) { auto [r, t] = node(0); out.push_back({r, t, &T.cyclic_corner_element()}); }
+}
+static void diag_cells(DiagonalSolver<double>& D, bool circle, int line, int nc, std::vector<Cell>& out)
+{
+    for (int k = 0; k < D.rows(); k++) out.push_back(circle ? Cell{line, k, &D.diagonal(k)} : Cell{nc + k, line, &D.diagonal(k)});
+}
+template <class S> static void probe_asc(Rng& rng, const PolarGrid& g, S& sm, const char* cls)
+{
+    const int nc = g.numberSmootherCircles(), nt = g.ntheta();
+    std::vector<Cell> cells;
+    csr_cells(g, sm.inner_boundary_circle_matrix_, false, cells);
+    if constexpr (requires { sm.circle_diagonal_solver_; }) {
+        for (int i = 1; i < nc; i++) { if (i & 1) tri_cells(sm.circle_tridiagonal_solver_[i / 2], true, i, nc, cells); else diag_cells(sm.circle_diagonal_solver_[i / 2], true, i, nc, cells); }
+        for (int j = 0; j < nt; j++) { if (j & 1) tri_cells(sm.radial_tridiagonal_solver_[j / 2], false, j, nc, cells); else diag_cells(sm.radial_diagonal_solver_[j / 2], false, j, nc, cells); }
+    } else {
+        for (int i = 1; i < nc; i++) tri_cells(sm.circle_tridiagonal_solver_[i], true, i, nc, cells);
+        for (int j = 0; j < nt; j++) tri_cells(sm.radial_tridiagonal_solver_[j], false, j, nc, cells);
+    }
+    for (int i = 0; i < nc; i++) probe_cells(rng, g, cls, "buildAscCircleSection", i, cells, [&] { sm.buildAscCircleSection(i); });
+    for (int j = 0; j < nt; j++) probe_cells(rng, g, cls, "buildAscRadialSection", j, cells, [&] { sm.buildAscRadialSection(j); });
+}
+template <class D> static void probe_direct(Rng& rng, const PolarGrid& g, D& d, const char* cls)
+{
+    SparseMatrixCSR<double> A = d.solver_matrix_; // same sparsity layout as the one the region fills
+    std::vector<Cell> cells;
+    csr_cells(g, A, true, cells);
+    for (int i = 0; i < g.numberSmootherCircles(); i++) probe_cells(rng, g, cls, "buildSolverMatrixCircleSection", i, cells, [&] { d.buildSolverMatrixCircleSection(i, A); });
+    for (int j = 0; j < g.ntheta(); j++) probe_cells(rng, g, cls, "buildSolverMatrixRadialSection", j, cells, [&] { d.buildSolverMatrixRadialSection(j, A); });
 }
 
 template <class S> static void probe_smoother(Rng& rng, const PolarGrid& g, S& sm, const char* cls, bool give)
@@ -172,10 +234,12 @@ int main(int argc, char** argv)
             for (int i = 0; i < nc; i++) probe(rng, g, "ResidualTake", "applyCircleSection", i, "none", {0}, [&](Arrays& A) { R.applyCircleSection(i, A.out, A.rhs, A.x); });
             for (int j = 0; j < g.ntheta(); j++) probe(rng, g, "ResidualTake", "applyRadialSection", j, "none", {0}, [&](Arrays& A) { R.applyRadialSection(j, A.out, A.rhs, A.x); });
         }
-        { SmootherGive S(g, L.levelCache(), *p.geo, *p.coef, p.dirbc, 1); probe_smoother(rng, g, S, "SmootherGive", true); }
-        { SmootherTake S(g, L.levelCache(), *p.geo, *p.coef, p.dirbc, 1); probe_smoother(rng, g, S, "SmootherTake", false); }
-        { ExtrapolatedSmootherGive S(g, L.levelCache(), *p.geo, *p.coef, p.dirbc, 1); probe_smoother(rng, g, S, "ExSmootherGive", true); }
-        { ExtrapolatedSmootherTake S(g, L.levelCache(), *p.geo, *p.coef, p.dirbc, 1); probe_smoother(rng, g, S, "ExSmootherTake", false); }
+        { SmootherGive S(g, L.levelCache(), *p.geo, *p.coef, p.dirbc, 1); probe_smoother(rng, g, S, "SmootherGive", true); probe_asc(rng, g, S, "SmootherGiveAsc"); }
+        { SmootherTake S(g, L.levelCache(), *p.geo, *p.coef, p.dirbc, 1); probe_smoother(rng, g, S, "SmootherTake", false); probe_asc(rng, g, S, "SmootherTakeAsc"); }
+        { ExtrapolatedSmootherGive S(g, L.levelCache(), *p.geo, *p.coef, p.dirbc, 1); probe_smoother(rng, g, S, "ExSmootherGive", true); probe_asc(rng, g, S, "ExSmootherGiveAsc"); }
+        { ExtrapolatedSmootherTake S(g, L.levelCache(), *p.geo, *p.coef, p.dirbc, 1); probe_smoother(rng, g, S, "ExSmootherTake", false); probe_asc(rng, g, S, "ExSmootherTakeAsc"); }
+        { DirectSolverGiveCustomLU D(g, L.levelCache(), *p.geo, *p.coef, p.dirbc, 1); probe_direct(rng, g, D, "DirectGive"); }
+        { DirectSolverTakeCustomLU D(g, L.levelCache(), *p.geo, *p.coef, p.dirbc, 1); probe_direct(rng, g, D, "DirectTake"); }
     }
     printf("end\n");
     return 0;
